@@ -48,12 +48,29 @@ def time_limit(seconds):
         signal.signal(signal.SIGALRM, old)
 
 
+class TooManyHangs(Exception):
+    '''The implementation keeps running into the time limit: the run is
+    abandoned and reported as a violation.'''
+
+
+HANGS = []          # inputs on which a call did not return
+MAX_HANGS = 3
+
+
+def note_hang(what):
+    HANGS.append(what)
+    if len(HANGS) >= MAX_HANGS:
+        raise TooManyHangs(f'{len(HANGS)} implementation calls did not return, '
+                           f'first on {HANGS[0]!r}')
+
+
 def limited(fun, seconds=3.0):
     def wrapper(s):
         try:
             with time_limit(seconds):
                 return fun(s)
         except ImplHang:
+            note_hang((fun.__name__, s[:200]))
             return SEP4 + 'EHang'
     return wrapper
 
